@@ -335,7 +335,8 @@ def transpose(a: AxArr, perm: Any = None) -> AxArr:
 def moveaxis(a: AxArr, src: Any, dst: Any) -> AxArr:
     s = [_norm_axis(x, a.ndim) for x in _axes_list(src)]
     d = [_norm_axis(x, a.ndim) for x in _axes_list(dst)]
-    if len(s) != len(d) or len(set(s)) != len(s) or len(set(d)) != len(d):
+    # (jax.numpy.moveaxis, unlike numpy's, does not refuse repeated destinations: the axes are inserted one after the other)
+    if len(s) != len(d) or len(set(s)) != len(s):
         raise Raised('ValueError')
     order = [n for n in range(a.ndim) if n not in s]
     for dest, source in sorted(zip(d, s)):
